@@ -269,33 +269,8 @@ Record sites := mkSites {
 Inductive opid :=
 | OCtor | OSetattr | ODeser | ODeserTrusted | OSer | OSerFast | OSerMixed.
 
-(* does taking a value of type t into an instance retain part of the caller's value?  (typed collections
-   are rebuilt level by level; untyped positions are kept by reference).  [opaque]: nested structures are
-   given as Structure instances (constructor, setattr) -- objects with identity, shared by design and not
-   descended into -- rather than as nested documents (deserialization) *)
-Fixpoint intake_retains (opaque : bool) (sv : sites) (t : aty) : bool :=
-  match t with
-  | TScalar _ => false
-  | TAny => true
-  | TArray None => true         (* elements of an untyped array are kept by reference *)
-  | TDeque None => true
-  | TMap None => true
-  | TArray (Some i) =>
-      negb (s_array_set_wraps sv) || negb (eff_safe (s_liststruct_init sv)) || intake_retains opaque sv i
-  | TDeque (Some i) => intake_retains opaque sv i
-  | TMap (Some i) =>
-      negb (s_map_set_wraps sv) || negb (eff_safe (s_dictstruct_init sv)) || intake_retains opaque sv i
-  | TSet _ => false
-  | TOpt i => intake_retains opaque sv i
-  | TArrayPos l =>
-      negb (s_array_set_wraps sv) || negb (eff_safe (s_liststruct_init sv)) ||
-      (fix any (l : list aty) : bool := match l with [] => false | x :: r => intake_retains opaque sv x || any r end) l
-  | TTuple l =>
-      (fix any (l : list aty) : bool := match l with [] => false | x :: r => intake_retains opaque sv x || any r end) l
-  | TStruct l =>
-      if opaque then false
-      else (fix any (l : list aty) : bool := match l with [] => false | x :: r => intake_retains opaque sv x || any r end) l
-  end.
+(* what an instance keeps of a value it is given (constructor, setattr, deserialization) depends on the owner kind,
+   the declared type AND the shape of the value: Struct/AliasIntake.v *)
 
 (* does the document produced by the fast serializer contain an object of the instance? *)
 Fixpoint fast_live (sv : sites) (t : aty) : bool :=
@@ -347,11 +322,11 @@ Fixpoint trusted_retains (sv : sites) (t : aty) : bool :=
   | _ => false
   end.
 
-(* predicted observation: (argument written, argument retained, result live) *)
+(* predicted observation: (argument written, argument retained, result live); the intake operations
+   (OCtor, OSetattr, ODeser) are predicted by AliasIntake.retains, which also looks at the value *)
 Definition predict (sv : sites) (op : opid) (t : aty) : bool * bool * bool :=
   match op with
-  | OCtor | OSetattr => (false, intake_retains true sv t, false)
-  | ODeser => (false, intake_retains false sv t, false)
+  | OCtor | OSetattr | ODeser => (false, false, false)
   | ODeserTrusted => (false, trusted_retains sv t, false)
   | OSer => (false, false, regular_live false sv t)
   | OSerMixed => (false, false, regular_live true sv t)
@@ -363,7 +338,8 @@ Inductive sop :=
 | SCodeRequired (default_in_required : bool)       (* schema_to_struct_code on a schema whose required list names a property with a default *)
 | SSchemaRequired (touches : bool)                 (* structure_to_schema on a class with a defaulted / renamed / dropped field *)
 | SSchemaDefault (mutable_default : bool)          (* structure_to_schema on a class whose field has a list/dict default *)
-| SConvertDict.
+| SConvertDict
+| SVersionedDeser (typed_or_immutable : bool).                                 (* Deserializer of a Versioned class: a field of the input document, typed or not *)
 
 Definition predict_sop (sv : sites) (o : sop) : bool * bool * bool :=
   match o with
@@ -372,6 +348,9 @@ Definition predict_sop (sv : sites) (o : sop) : bool * bool * bool :=
   | SSchemaDefault b => (false, false, b && negb (eff_safe (s_schema_default sv)))
   | SConvertDict =>
       (false, false, negb (eff_deep (s_convert_dict sv)) || negb (eff_deep (s_convert_step sv)))
+  | SVersionedDeser _ =>
+      (* the document is deep-copied by convert_dict before anything is taken from it: not even an untyped value is shared *)
+      (negb (eff_safe (s_convert_dict sv)), negb (eff_deep (s_convert_dict sv)), false)
   end.
 
 (* the sites whose recorded effect is outside {Copies, DeepCopies}: the defects the model predicts *)
